@@ -12,6 +12,7 @@ from d42.declaration import DeclarationError
 from .. import e1
 from ..common import safe_repr
 from ..runner import Acc, parallel
+from .. import terms
 from ..terms import E, fp
 from ..universe import INT, S, STR, call
 
@@ -29,12 +30,15 @@ def menus(tier):
     return {
         "int": {"refs": {"min": [(0,), (7,), (-1,), (8,)], "max": [(0,), (7,), (-1,), (8,)]},
                 "values": [None, 0, 7] + ([True] if T else [])},
-        "float": {"refs": {"min": [(0.15,), (1.5,), (2.5,)], "max": [(0.15,), (1.5,), (2.5,)],
+        # 1.49 / 1.51 differ from the value 1.5 only beyond precision 1; 1.46 rounds to 1.5
+        "float": {"refs": {"min": [(0.15,), (1.5,), (2.5,), (1.51,), (1.49,)],
+                           "max": [(0.15,), (1.5,), (2.5,), (1.49,), (1.51,)],
                            "precision": [(1,), (2,)] + ([(15,), (0,)] if T else [])},
-                  "values": [None, 1.5, 0.2]},
+                  "values": [None, 1.5, 0.2, 1.46]},
         "str": {"refs": {"len": str_len, "alphabet": [("",), ("a",), ("ab",)],
                          "contains": [("",), ("a",), ("ab",), ("c",)],
-                         "regex": [("a",), ("[ab]+",), ("^a.$",), ("a{2}",)] + ([("*",)] if T else [])},
+                         "regex": [("a",), ("[ab]+",), ("^a.$",), ("a{2}",), ("*",),
+                                   ("a{99999999999999999999}",)]},
                 "values": [None, "", "a", "ab", "abc"]},
         "list": {"refs": {"len": lst_len},
                  "values": [None, e1.Sch(INT), [], [I1], [I1, SA], [I1, E], [E, I1], [E, I1, E], [E]]},
@@ -54,12 +58,14 @@ def enumerate_sets(tier):
                         yield kind, v, refs
 
 
-def outcome(kind, value, order):
+def outcome(kind, value, order, wpos=None):
     s = getattr(schema, kind)
     try:
         if value is not None:
             s = s(e1.realise(value))
-        for method, args in order:
+        for j, (method, args) in enumerate(order):
+            if j == wpos:
+                terms.warm(s)       # the partial declaration is used (==, repr, ...) before refining
             s = getattr(s, method)(*args)
     except DeclarationError:
         return "rejected", None
@@ -82,15 +88,28 @@ def describe(refs):
 
 def judge(kind, value, refs):
     seen = {}
-    objs = {}
+    objs = []
+    # warm mode: each order once per position at which the partial declaration is exercised
+    # (exercising it at every step at once would give every result the same cached state)
+    wposs = range(len(refs)) if terms.WARM else (None,)
     for order in itertools.permutations(refs):
-        o, s = outcome(kind, value, order)
-        seen.setdefault(o, order)
-        objs[o] = s
+        for wpos in wposs:
+            o, s = outcome(kind, value, order, wpos)
+            seen.setdefault(o, order)
+            if s is not None:
+                objs.append(s)
     if len(seen) > 1:
         kinds = sorted("accepted" if isinstance(k, tuple) else k for k in seen)
         return f"C11|order-dependent:{'/'.join(kinds)}|{kind}{'(value)' if value is not None else ''}.{describe(refs)}", seen
-    # equal fingerprints must also be equal under d42's own ==
+    # equal fingerprints must also be equal under d42's own == (the property says "equal schemas")
+    for s in objs[1:]:
+        try:
+            same = (objs[0] == s) is True and (s == objs[0]) is True and (objs[0] != s) is False
+        except Exception as e:  # noqa: BLE001
+            same = f"raises {type(e).__name__}"
+        if same is not True:
+            return (f"C11|same-structure-but-not-equal-by-==:{same}|{kind}"
+                    f"{'(value)' if value is not None else ''}.{describe(refs)}"), seen
     return None, seen
 
 
@@ -122,7 +141,7 @@ def worker(shard, nshards, tier, seed):
 
 
 def run(tier, seed):
-    acc = parallel(worker, tier, seed)
+    acc = parallel(worker, tier, seed, warm_pass=True)
     cov = {
         "states": acc.n["sets"],
         "transitions": acc.n["chains"],
@@ -135,7 +154,8 @@ def run(tier, seed):
         "exhaustive": True,
         "bounds": {"tier": tier, "max_set_size": 4 if tier == "thorough" else 3},
     }
-    return acc, cov, ["outcomes are compared by structural fingerprint (and rejection)"]
+    return acc, cov, ["outcomes are compared by structural fingerprint (and rejection), results of "
+                      "the orders additionally by d42's own == in both directions"]
 
 
 def replay(case):
